@@ -90,6 +90,7 @@ type ReqSpec struct {
 	Weight    int         `json:"weight,omitempty"`
 	CWeight   int         `json:"client_weight,omitempty"` // scheduler weight of the client task (default: Weight)
 	WSClose   string      `json:"ws_close,omitempty"` // normal | none | away
+	WSDuplex  bool        `json:"ws_duplex,omitempty"` // WebSocket, two-goroutine handler: the client sends its close frame only after the handler has made all its sends (there is no half-close)
 	Backend   string      `json:"backend,omitempty"`  // proxied through this backend ("" = local)
 	Route     string      `json:"route,omitempty"`    // http: "" (annotated if the method has one) | implicit
 	Round     int         `json:"round,omitempty"`    // registrysim: probe of the round after this many registrar operations (0: not gated)
@@ -226,10 +227,26 @@ const (
 	opConsume
 )
 
+// lastBound: the wire offset behind the client's last message (what follows is
+// the WebSocket close frame).
+//
+//go:norace
+func (r *reqState) lastBound() int {
+	if len(r.bounds) == 0 {
+		return 0
+	}
+	return r.bounds[len(r.bounds)-1]
+}
+
 //go:norace
 func (r *reqState) Enabled(op int) bool {
 	switch op {
 	case opSend:
+		if last := r.lastBound(); r.spec.WSDuplex && r.mSent >= last {
+			// only the close frame is left
+			log := &r.hlog
+			return log.sentMirror() >= len(r.spec.Handler.Resps) || log.returnedMirror() || r.q.mAborted || r.q.mReturned
+		}
 		if r.spec.ServerFirst && r.mSent == 0 {
 			return r.q.mOut > 0 || r.q.mAborted || r.q.mReturned
 		}
@@ -595,6 +612,13 @@ func (r *reqState) clientTask() {
 		remaining := r.end - pos
 		// With ping-pong, do not run ahead of the message the handler answered.
 		limit := r.end
+		if r.spec.WSDuplex {
+			// the close frame is a send of its own
+			if last := r.lastBound(); pos < last && last < limit {
+				limit = last
+				remaining = limit - pos
+			}
+		}
 		if r.spec.PingPong {
 			k := 0
 			for k < len(r.bounds) && r.bounds[k] <= pos {
